@@ -10,7 +10,7 @@ INFO = {
                "new entry is added unconditionally and last (so it shadows, and is never overwritten by, an older "
                "entry of the same name); with_inupt makes [old input] ++ [old parents] the new parent chain, "
                "unconditionally; set/define evaluate their body in the derived context and their name/value "
-               "arguments in the incoming one; the pipe threads each stage's value through with_inupt.",
+               "arguments in the incoming one; the pipe threads each stage's value through with_inupt. The --set stage is the outermost stage of the pipeline, so --set bindings are in scope for --split-by, --filter and every --select.",
     "not_decided": "The lookup semantics of :n / @n / ^ on run-time values (substitution equivalence as a whole).",
     "trusted": ["sa/tables/context_frame.toml", "std collections: push/insert add, clone copies"],
 }
